@@ -479,6 +479,7 @@ func C20Child(spec, out string) int {
 		p := contoursPath([][]Pt{selfCrossing(r, false), selfCrossing(r, false), selfCrossing(r, true)})
 		func() { defer func() { recover() }(); p.Settle(canvas.EvenOdd) }()
 	}
+	canvas.VerifSetPoison(false) // the histories switch the poison on themselves
 	switch a.Mode {
 	case "sequential":
 		for i := range calls {
